@@ -414,7 +414,7 @@ static void print_addr(const void *target)
 /* callbacks and their log                                             */
 
 static int want_errno;	/* ambient errno installed right before every library call */
-#define E(x) (errno = want_errno, (x))
+#define E(x) ((want_errno >= 0 ? (errno = want_errno) : 0), (x))
 static long cb_countdown;	/* 0 = never fail; else the k-th invocation fails */
 static long cb_seen;
 static int w_mode;		/* 0 pass, 1 veto, 2 rewrite */
@@ -843,7 +843,8 @@ static void do_op(char **t, int ntok)
 	size_t l1 = 0;
 	int rc;
 
-	errno = want_errno;
+	if (want_errno >= 0)
+		errno = want_errno;	/* -1: leave errno as the previous library call left it */
 	if (!strcmp(op, "env")) {
 		NEED(3); s1 = dec(t[1], NULL); s2 = dec(t[2], NULL);
 		if (s2) setenv(s1, s2, 1); else unsetenv(s1);
@@ -1004,13 +1005,13 @@ static void do_op(char **t, int ntok)
 		/* typed getter by path: get <secref> <path> <kind> <index> */
 		unsigned idx;
 		NEED(5); SEC(t[1]); s1 = dec(t[2], NULL); idx = (unsigned)strtoul(t[4], NULL, 0);
-		fprintf(out, "r get ");
-		if (!strcmp(t[3], "int")) fprintf(out, "%ld", cfg_getnint(sec, s1, idx));
-		else if (!strcmp(t[3], "float")) fprintf(out, "%.17g", cfg_getnfloat(sec, s1, idx));
-		else if (!strcmp(t[3], "bool")) fprintf(out, "%d", (int)cfg_getnbool(sec, s1, idx));
-		else if (!strcmp(t[3], "str")) enc(out, cfg_getnstr(sec, s1, idx));
-		else if (!strcmp(t[3], "size")) fprintf(out, "%u", cfg_size(sec, s1));
-		else if (!strcmp(t[3], "comment")) enc(out, cfg_getcomment(sec, s1));
+		/* evaluate first: the getter may emit diagnostics */
+		if (!strcmp(t[3], "int")) { long v = cfg_getnint(sec, s1, idx); fprintf(out, "r get %ld", v); }
+		else if (!strcmp(t[3], "float")) { double v = cfg_getnfloat(sec, s1, idx); fprintf(out, "r get %.17g", v); }
+		else if (!strcmp(t[3], "bool")) { int v = (int)cfg_getnbool(sec, s1, idx); fprintf(out, "r get %d", v); }
+		else if (!strcmp(t[3], "str")) { char *v = cfg_getnstr(sec, s1, idx); fprintf(out, "r get "); enc(out, v); }
+		else if (!strcmp(t[3], "size")) { unsigned v = cfg_size(sec, s1); fprintf(out, "r get %u", v); }
+		else if (!strcmp(t[3], "comment")) { char *v = cfg_getcomment(sec, s1); fprintf(out, "r get "); enc(out, v); }
 		else die("get: kind");
 		fputc('\n', out);
 	} else if (!strcmp(op, "print")) {
